@@ -7,6 +7,8 @@
 #include "galois/Galois.h"
 #include "galois/substrate/ThreadPool.h"
 
+#include <signal.h>
+
 using namespace c10;
 namespace gs = galois::substrate;
 
@@ -19,6 +21,7 @@ struct Gen {
   bool canIn, canRemoveViaIn, canSort;
   std::vector<std::pair<unsigned, unsigned>> weights; // (kind, weight)
   unsigned wsum = 0;
+  unsigned removalBudget = 0; // node removals still allowed (keeps most of the graph alive)
 
   Gen(Rng& r, const Flavour& f, CaseSpec& sp) : rng(r), fl(f), s(sp) {
     canIn          = f.flags & (F_INOUT | F_UNDIRECTED);
@@ -63,6 +66,12 @@ struct Gen {
   Op op(const std::vector<uint32_t>& cands) {
     Op o;
     o.kind = (uint8_t)kind();
+    if (o.kind == K_REMOVE_NODE) {
+      if (removalBudget)
+        --removalBudget;
+      else
+        o.kind = K_UPDATE_NODE;
+    }
     o.a    = cands[rng.below(cands.size())];
     o.v    = 1 + rng.below(1000000);
     if (needsB(o.kind)) {
@@ -109,6 +118,7 @@ void genSequential(Rng& rng, const Flavour& fl, CaseSpec& s, bool thorough) {
   }
   Gen g(rng, fl, s);
   g.setWeights(false);
+  g.removalBudget = std::max(1u, s.nTotal / 2);
   std::vector<uint32_t> cands;
   for (uint32_t i = 0; i < s.nTotal; ++i)
     cands.push_back(i);
@@ -222,6 +232,7 @@ void genLoop(Rng& rng, const Flavour& fl, CaseSpec& s, bool bare, bool thorough,
     }
   }
   g.setWeights(bare);
+  g.removalBudget = std::max(1u, s.nTotal / 3);
   // which item creates which new node
   std::vector<std::vector<uint32_t>> creates(items);
   for (uint32_t l = s.n0; l < s.nTotal; ++l)
@@ -327,6 +338,50 @@ static void continueInFreshProcess(int argc, char** argv, long nextCase) {
   _exit(2);
 }
 
+// Case classes in which the open removeEdge defects apply (self-loops; parallel edges on graphs with reverse entries)
+// corrupt adjacency vectors, so the process may die in many different ways (SIGSEGV, boost assertion, ASan report).
+// For those classes only, a fatal signal is recorded by the harness itself under ONE key per (family, class) and the
+// process leaves with the "violation already recorded" exit code; all other classes keep the driver's crash keys.
+static char g_crashLine[4096];
+static size_t g_crashLen = 0, g_crashSigPos = 0;
+static int g_crashFd     = -1;
+static const int g_sigs[] = {SIGSEGV, SIGABRT, SIGBUS, SIGFPE, SIGILL};
+static struct sigaction g_oldSig[5];
+static bool g_crashArmed = false;
+static void crashHandler(int sig) {
+  g_crashLine[g_crashSigPos]     = (char)('0' + (sig / 10) % 10);
+  g_crashLine[g_crashSigPos + 1] = (char)('0' + sig % 10);
+  ssize_t w = write(g_crashFd, g_crashLine, g_crashLen);
+  (void)w;
+  _exit(3);
+}
+static void armCrashKey(Harness& H, long k, const std::string& key, const std::string& params) {
+  std::string line = J().kv("ev", "violation").kv("case", k).kv("key", key).raw("params", params)
+                         .raw("detail", J().kv("what", "the process received a fatal signal while running a case of a class in which "
+                                                        "removeEdge corrupts adjacency vectors (self-loop / parallel-edge defects)")
+                                            .kv("signal", "SIG00").str()).str() + "\n";
+  if (line.size() >= sizeof g_crashLine)
+    return;
+  memcpy(g_crashLine, line.data(), line.size());
+  g_crashLen    = line.size();
+  g_crashSigPos = line.find("SIG00") + 3;
+  g_crashFd     = fileno(H.out);
+  struct sigaction sa;
+  memset(&sa, 0, sizeof sa);
+  sa.sa_handler = crashHandler;
+  sigemptyset(&sa.sa_mask);
+  for (unsigned i = 0; i < 5; ++i)
+    sigaction(g_sigs[i], &sa, &g_oldSig[i]);
+  g_crashArmed = true;
+}
+static void disarmCrashKey() {
+  if (!g_crashArmed)
+    return;
+  for (unsigned i = 0; i < 5; ++i)
+    sigaction(g_sigs[i], &g_oldSig[i], nullptr);
+  g_crashArmed = false;
+}
+
 int main(int argc, char** argv) {
   Harness H("C10", argc, argv);
   galois::SharedMemSys G;
@@ -382,17 +437,24 @@ int main(int argc, char** argv) {
     for (auto& p : s.progs)
       nops += p.nops;
     H.hangKey = std::string("C10:") + fl.family + ":hang";
-    H.begin(k, J().kv("component", fl.family).kv("flavour", fl.name).kv("mode", modeName(s.mode)).kv("threads", s.threads)
+    std::string paramsJson;
+    H.begin(k, paramsJson = J().kv("component", fl.family).kv("flavour", fl.name).kv("mode", modeName(s.mode)).kv("threads", s.threads)
                    .kv("sockets", nsock).kv("n0", s.n0).kv("nTotal", s.nTotal).kv("init_ops", (uint64_t)s.init.size())
                    .kv("items", (uint64_t)s.progs.size()).kv("ops", (uint64_t)nops).kv("multiEdges", s.multiEdges)
                    .kv("selfLoops", s.selfLoops).kv("nodeRemoval", s.nodeRemoval).kv("parts", s.parts)
                    .kv("unprotectedC", s.unprotectedC).kv("parallelInit", s.parallelInit).kv("pointProb", pointProb)
                    .kv("spinProb", spinProb).str());
     CaseResult r;
+    {
+      std::string cls = std::string((s.multiEdges && tracksReverse(fl.flags)) ? ":multi-edge" : "") + (s.selfLoops ? ":self-loop" : "");
+      if (!cls.empty())
+        armCrashKey(H, k, std::string("C10:") + fl.family + ":crash" + cls, paramsJson);
+    }
     if (loop)
       perturb_case(pseed, pointProb, spinProb, 40);
     galois::setActiveThreads(s.threads);
     fl.run(s, fl, r);
+    disarmCrashKey();
     perturb_off();
     galois::setActiveThreads(1);
 
@@ -422,7 +484,8 @@ int main(int argc, char** argv) {
       if (r.kindCount[kd])
         obs.kv((std::string("op_") + kindName(kd)).c_str(), r.kindCount[kd]);
     H.end(k, sig, nontrivial, obs.str());
-    if (!r.viols.empty() && H.only < 0)
+    // (self-loop removal on graphs with reverse entries may also corrupt memory without an oracle noticing)
+    if ((!r.viols.empty() || (s.selfLoops && tracksReverse(fl.flags))) && H.only < 0)
       continueInFreshProcess(argc, argv, k + 1);
   }
   return 0;
